@@ -725,6 +725,12 @@ class CallMixin(object):
             return PyList([self.call_value(f, [x], {}) for x in self.iter_concrete(args[1])])
         if name == "type":
             return TypeOf(args[0])
+        if name == "sorted" and len(args) == 1 and not kwargs:
+            src = args[0].seq if isinstance(args[0], GenVal) else args[0]
+            if hasattr(src, "freeze"):
+                src = src.freeze()
+            if isinstance(src, SymSeq):
+                return self.sorted_permutation(src)
         if name == "sorted":
             items = self.iter_concrete(args[0])
             if all(isinstance(i, (int, str)) for i in items):
@@ -751,6 +757,25 @@ class CallMixin(object):
             if isinstance(src, SymSeq):
                 return self.ordered_dedup(src)
         raise OutOfSubset("builtin %s" % name)
+
+    def sorted_permutation(self, src):
+        """``sorted(seq)``: a PERMUTATION of seq (r[k] = seq[perm(k)], perm a bijection of the index range) that is
+        ordered by an abstract total pre-order Le on the elements, and that is seq itself when seq is already strictly
+        ordered.  (Over-approximation: which permutation is left open otherwise.)"""
+        n = z3num(src.length)
+        perm = z3.Function(fresh_name("sorted.perm"), z3.IntSort(), z3.IntSort())
+        inv = z3.Function(fresh_name("sorted.inv"), z3.IntSort(), z3.IntSort())
+        Lt = z3.Function(fresh_name("sorted.lt"), z3.IntSort(), z3.IntSort(), z3.BoolSort())   # strict order on source indices
+        i, j = z3.Int(fresh_name("i")), z3.Int(fresh_name("j"))
+        rng = lambda v: z3.And(0 <= v, v < n)
+        self.path.assume(z3.ForAll([i], z3.Implies(rng(i), z3.And(rng(perm(i)), inv(perm(i)) == i)), patterns=[perm(i)]))
+        self.path.assume(z3.ForAll([i], z3.Implies(rng(i), z3.And(rng(inv(i)), perm(inv(i)) == i)), patterns=[inv(i)]))
+        self.path.assume(z3.ForAll([i, j], z3.Implies(z3.And(rng(i), rng(j), i < j), z3.Not(Lt(perm(j), perm(i)))),
+                                   patterns=[z3.MultiPattern(perm(i), perm(j))]))
+        already = z3.ForAll([i, j], z3.Implies(z3.And(rng(i), rng(j), i < j), Lt(i, j)))
+        self.path.assume(z3.Implies(already, z3.ForAll([i], z3.Implies(rng(i), perm(i) == i), patterns=[perm(i)])))
+        self.note_assumption("sorted(seq): a permutation of seq, equal to seq when seq is already strictly ordered")
+        return SymSeq(src.length, lambda k, src=src, perm=perm: src.at(perm(z3num(k))), "sorted")
 
     def ordered_dedup(self, src):
         """``dict.fromkeys(seq)`` (insertion-ordered, first occurrence kept), as the key sequence: a SUBSEQUENCE
